@@ -506,8 +506,8 @@ def judge(ctx, st, items, report=True):
             elif state == "started":
                 if kv["status"] == "signal:31":
                     act = ("kill",)
-                elif kv["status"] == "exit:2" and b"SIGSYS" in bytes.fromhex(kv["stderr"][1:]):
-                    act = ("trap",)
+                elif kv["status"] == "exit:2":
+                    act = ("trap",)            # SIGSYS delivered: the Go runtime ends the process with status 2
                 else:
                     act = ("died", kv["status"])
                 ended = True
